@@ -159,8 +159,8 @@ Proof.
   f_equal. apply csumn_ext. intros i Hi. apply csumn_ext. intros j Hj. rewrite mget_mbuild by auto. reflexivity.
 Qed.
 
-Lemma t4get_soi_tab w ev dt i j m n : (i < d)%nat -> (j < d)%nat -> (m < d)%nat -> (n < d)%nat ->
-  t4get RO (soi_tab RO d w ev dt) i j m n = soi_entry RO w (vg RO ev i) (vg RO ev j) (vg RO ev m) (vg RO ev n) dt.
+Lemma t4get_soi_tab thr2 w ev dt i j m n : (i < d)%nat -> (j < d)%nat -> (m < d)%nat -> (n < d)%nat ->
+  t4get RO (soi_tab RO d thr2 w ev dt) i j m n = soi_entry RO thr2 w (vg RO ev i) (vg RO ev j) (vg RO ev m) (vg RO ev n) dt.
 Proof. intros. unfold t4get, soi_tab. rewrite !nth_build by auto. rewrite mget_mbuild by auto. reflexivity. Qed.
 
 Lemma cm_step_get thr ev V Q tg dt omega basis nopers nc a k o :
@@ -209,23 +209,27 @@ Proof. apply c_eq; csimp; ring. Qed.
 Lemma cconj_real s : cconj' (s, 0) = (s, 0).
 Proof. apply c_eq; csimp; ring. Qed.
 
+Lemma regular_a thr2 w ei ej T : regular thr2 (w + (ej - ei)) T -> regular thr2 ((ei - ej) - w) T.
+Proof. intros H. replace ((ei - ej) - w) with (- (w + (ej - ei))) by ring. apply regular_opp; auto. Qed.
+
 (* the same-segment term and the per-segment control matrix:
    D_g(a,b,k,l) + conj D_g(b,a,l,k) = conj(step_g[a,k]) step_g[b,l]                               *)
-Theorem same_plus_adjoint_seg thr ev V Q tg dt omega basis nopers nc a b k l o :
-  0 <= thr ->
+Theorem same_plus_adjoint_seg thr thr2 ev V Q tg dt omega basis nopers nc a b k l o :
+  0 <= thr -> 0 <= thr2 ->
   (forall N, In N nopers -> fherm d (toF N)) -> (forall Ck, In Ck basis -> fherm d (toF Ck)) ->
   length nc = length nopers ->
   (a < length nopers)%nat -> (b < length nopers)%nat -> (k < length basis)%nat -> (l < length basis)%nat ->
   (o < length omega)%nat ->
   (forall m n, (m < d)%nat -> (n < d)%nat ->
      let x := vg RO omega o + (vg RO ev m - vg RO ev n) in x = 0 \/ thr < Rabs (x * dt)) ->
+  (forall m n, (m < d)%nat -> (n < d)%nat -> regular thr2 (vg RO omega o + (vg RO ev m - vg RO ev n)) dt) ->
   let na := length nopers in let nk := length basis in let no := length omega in
-  let D := so_same RO d na nk no (so_NT RO d V nopers nc) (so_BT RO d V Q basis) (map (fun w => soi_tab RO d w ev dt) omega) in
+  let D := so_same RO d na nk no (so_NT RO d V nopers nc) (so_BT RO d V Q basis) (map (fun w => soi_tab RO d thr2 w ev dt) omega) in
   let step := cm_step RO d thr ev V Q tg dt omega basis nopers nc in
   cadd' (a5get RO D a b k l o) (cconj' (a5get RO D b a l k o)) =
   cmul' (cconj' (a3get RO step a k o)) (a3get RO step b l o).
 Proof.
-  intros Hthr HN HC HL Ha Hb Hk Hl Ho Hmask na nk no D step. unfold D, step.
+  intros Hthr Hthr2 HN HC HL Ha Hb Hk Hl Ho Hmask Hreg na nk no D step. unfold D, step.
   rewrite !so_same_get by (auto; rewrite ?so_NT_length, ?so_BT_length, ?map_length; auto).
   rewrite (nth_map_lt _ omega o 0) by auto. fold (vg RO omega o). set (w := vg RO omega o) in *.
   rewrite !so_NT_nth, !so_BT_nth by auto.
@@ -252,6 +256,7 @@ Proof.
     rewrite cconj_mul, !cscal_cmul, cconj_mul, cconj_real, HNTb, HBTl by auto. reflexivity. }
   rewrite (same_sum_adjoint d _ Xak Xbl Ja Jb); auto.
   2:{ intros i j m n Hi Hj Hm Hn. rewrite !t4get_soi_tab by auto. rewrite !soi_entry_core.
+      rewrite !soi_core_regular by (auto; try apply regular_a; apply Hreg; auto).
       rewrite soi_core_conj. unfold Ja, Jb. rewrite <- soi_sum_identity. f_equal. f_equal; unfold w, vg, vget; simpl; ring. }
   (* the per-segment control matrix *)
   assert (Hstep : forall (a' k' : nat) (NT' BT' : Mat) (s' : R),
@@ -277,11 +282,12 @@ End Seg.
 (* ------------------------------------------------------------------ Part 4: the loop over segments *)
 Section Loop.
 Variable d : nat.
+Variable thr2 : R.
 Variables (na nk no : nat) (omega : list R).
 Notation Seg := (SegData (T:=R)).
 
 Definition seg_same (s : Seg) : Arr5 (T:=R) :=
-  let '(ev, dt, NT, BT, step) := s in so_same RO d na nk no NT BT (map (fun w => soi_tab RO d w ev dt) omega).
+  let '(ev, dt, NT, BT, step) := s in so_same RO d na nk no NT BT (map (fun w => soi_tab RO d thr2 w ev dt) omega).
 Definition seg_step (s : Seg) : Arr3 (T:=R) := snd s.
 
 (* entry (a,b,k,l,o) of the accumulated result, as a recursion over the segments:
@@ -297,7 +303,7 @@ Fixpoint so_spec (a b k l o : nat) (first : bool) (segs : list Seg) (cumv : Cx) 
 
 Lemma so_loop_get a b k l o : (a < na)%nat -> (b < na)%nat -> (k < nk)%nat -> (l < nk)%nat -> (o < no)%nat ->
   forall segs first cum acc,
-  a5get RO (so_loop RO d na nk no omega first segs cum acc) a b k l o =
+  a5get RO (so_loop RO d thr2 na nk no omega first segs cum acc) a b k l o =
   cadd' (a5get RO acc a b k l o) (so_spec a b k l o first segs (a3get RO cum b l o)).
 Proof.
   intros Ha Hb Hk Hl Ho. induction segs as [|s rest IH]; intros first cum acc.
@@ -345,7 +351,7 @@ End Loop.
 (* ------------------------------------------------------------------ the whole pulse *)
 Section Final.
 Variable d : nat.
-Variables (thr : R) (omega : list R) (basis nopers : list (Mat (T:=R))).
+Variables (thr thr2 : R) (omega : list R) (basis nopers : list (Mat (T:=R))).
 Notation Seg := (SegData (T:=R)).
 Notation na := (length nopers).
 Notation nk := (length basis).
@@ -388,20 +394,22 @@ Proof.
 Qed.
 
 (* hypothesis "no first-order entry on the Taylor branch unless its argument is exactly zero" *)
-Definition no_taylor (evs : list (list R)) (dts : list R) (o : nat) : Prop :=
+Definition no_taylor (t : R) (evs : list (list R)) (dts : list R) (o : nat) : Prop :=
   forall ev dt, In (ev, dt) (combine evs dts) -> forall m n, (m < d)%nat -> (n < d)%nat ->
-    let x := vg RO omega o + (vg RO ev m - vg RO ev n) in x = 0 \/ thr < Rabs (x * dt).
+    let x := vg RO omega o + (vg RO ev m - vg RO ev n) in x = 0 \/ t < Rabs (x * dt).
+Lemma no_taylor_mono t t' evs dts o : t' <= t -> no_taylor t evs dts o -> no_taylor t' evs dts o.
+Proof. intros Hle H ev dt Hin m n Hm Hn. destruct (H ev dt Hin m n Hm Hn) as [E|E]; [left; auto | right; lra]. Qed.
 
 Lemma fresh_segs_good a b k l o :
-  0 <= thr ->
+  0 <= thr -> 0 <= thr2 ->
   (forall N, In N nopers -> fherm d (toF N)) -> (forall Ck, In Ck basis -> fherm d (toF Ck)) ->
   (a < na)%nat -> (b < na)%nat -> (k < nk)%nat -> (l < nk)%nat -> (o < no)%nat ->
   forall evs Vs Qs ts dts ncs,
-  (forall nc, In nc ncs -> length nc = na) -> no_taylor evs dts o ->
-  List.Forall (seg_good d na nk no omega a b k l o) (fresh_segs evs Vs Qs ts dts ncs).
+  (forall nc, In nc ncs -> length nc = na) -> no_taylor thr evs dts o -> no_taylor thr2 evs dts o ->
+  List.Forall (seg_good d thr2 na nk no omega a b k l o) (fresh_segs evs Vs Qs ts dts ncs).
 Proof.
-  intros Hthr HN HC Ha Hb Hk Hl Ho.
-  induction evs as [|ev evs IH]; intros Vs Qs ts dts ncs Hnc Hmask; [constructor|].
+  intros Hthr Hthr2 HN HC Ha Hb Hk Hl Ho.
+  induction evs as [|ev evs IH]; intros Vs Qs ts dts ncs Hnc Hmask Hmask2; [constructor|].
   destruct Vs as [|V Vs]; [constructor|]. destruct Qs as [|Q Qs]; [constructor|].
   destruct ts as [|tg ts]; [constructor|]. destruct dts as [|dt dts]; [constructor|].
   destruct ncs as [|nc ncs]; [constructor|].
@@ -410,8 +418,10 @@ Proof.
     apply same_plus_adjoint_seg; auto.
     + apply Hnc. left; reflexivity.
     + intros m n Hm Hn. apply (Hmask ev dt); auto. left; reflexivity.
+    + intros m n Hm Hn. apply (Hmask2 ev dt); auto. left; reflexivity.
   - apply IH. intros nc' Hin. apply Hnc. right; auto.
     intros ev' dt' Hin. apply Hmask. right; auto.
+    intros ev' dt' Hin. apply Hmask2. right; auto.
 Qed.
 
 Lemma transpose_coeffs_rows G (ncoeffs : list (list R)) nc :
@@ -427,8 +437,8 @@ Lemma second_order_ff_get evs Vs Qs ncoeffs dts ts a b k l o :
   length evs = length dts -> length Vs = length dts ->
   (length dts <= length Qs)%nat -> (length dts <= length ts)%nat ->
   (a < na)%nat -> (b < na)%nat -> (k < nk)%nat -> (l < nk)%nat -> (o < no)%nat ->
-  a5get RO (second_order_ff RO d thr evs Vs Qs omega basis nopers ncoeffs dts ts (None, None)) a b k l o =
-  so_spec d na nk no omega a b k l o false
+  a5get RO (second_order_ff RO d thr thr2 evs Vs Qs omega basis nopers ncoeffs dts ts (None, None)) a b k l o =
+  so_spec d thr2 na nk no omega a b k l o false
           (fresh_segs evs Vs Qs ts dts (transpose_coeffs RO (length dts) ncoeffs)) 0c.
 Proof.
   intros H1 H2 H3 H4 Ha Hb Hk Hl Ho. unfold second_order_ff. cbn [fst snd].
@@ -439,18 +449,19 @@ Qed.
 
 (* F2_ab,kl + conj(F2_ba,lk) = conj(B_ak) B_bl : the first-order generalized filter function *)
 Theorem F2_plus_adjoint evs Vs Qs ncoeffs dts ts a b k l o :
-  0 <= thr ->
+  0 <= thr2 <= thr ->
   (forall N, In N nopers -> fherm d (toF N)) -> (forall Ck, In Ck basis -> fherm d (toF Ck)) ->
   length evs = length dts -> length Vs = length dts ->
   (length dts <= length Qs)%nat -> (length dts <= length ts)%nat -> length ncoeffs = na ->
   (a < na)%nat -> (b < na)%nat -> (k < nk)%nat -> (l < nk)%nat -> (o < no)%nat ->
-  no_taylor evs dts o ->
-  let F2 := second_order_ff RO d thr evs Vs Qs omega basis nopers ncoeffs dts ts (None, None) in
+  no_taylor thr evs dts o ->
+  let F2 := second_order_ff RO d thr thr2 evs Vs Qs omega basis nopers ncoeffs dts ts (None, None) in
   let Bm := control_matrix_from_scratch RO d thr evs Vs Qs omega basis nopers ncoeffs dts ts in
   cadd' (a5get RO F2 a b k l o) (cconj' (a5get RO F2 b a l k o)) =
   cmul' (cconj' (a3get RO Bm a k o)) (a3get RO Bm b l o).
 Proof.
-  intros Hthr HN HC H1 H2 H3 H4 H5 Ha Hb Hk Hl Ho Hmask F2 Bm. unfold F2, Bm.
+  intros [Hthr2 Hle] HN HC H1 H2 H3 H4 H5 Ha Hb Hk Hl Ho Hmask F2 Bm. unfold F2, Bm.
+  assert (Hthr : 0 <= thr) by lra. pose proof (no_taylor_mono _ _ _ _ _ Hle Hmask) as Hmask2.
   rewrite !second_order_ff_get by auto.
   unfold control_matrix_from_scratch. rewrite !cm_loop_sum by auto. rewrite !a3get_a3zero by auto.
   rewrite so_spec_adjoint.
@@ -466,8 +477,8 @@ Definition valid_interm evs Vs Qs ncoeffs dts ts (im : Interm (T:=R)) : Prop :=
 
 Theorem intermediates_irrelevant evs Vs Qs ncoeffs dts ts im :
   valid_interm evs Vs Qs ncoeffs dts ts im ->
-  second_order_ff RO d thr evs Vs Qs omega basis nopers ncoeffs dts ts im =
-  second_order_ff RO d thr evs Vs Qs omega basis nopers ncoeffs dts ts (None, None).
+  second_order_ff RO d thr thr2 evs Vs Qs omega basis nopers ncoeffs dts ts im =
+  second_order_ff RO d thr thr2 evs Vs Qs omega basis nopers ncoeffs dts ts (None, None).
 Proof.
   intros [[H1|H1] [H2|H2]]; unfold second_order_ff; rewrite H1, H2; reflexivity.
 Qed.
